@@ -12,7 +12,9 @@ import (
 	ipfslog "berty.tech/go-ipfs-log"
 	orbitdb "berty.tech/go-orbit-db"
 	"berty.tech/go-orbit-db/accesscontroller"
+	"berty.tech/go-ipfs-log/entry"
 	"berty.tech/go-orbit-db/iface"
+	"berty.tech/go-orbit-db/stores/basestore"
 	"berty.tech/go-orbit-db/stores/operation"
 	"verifmc/explore"
 	"verifmc/sim"
@@ -38,7 +40,18 @@ type Writers struct {
 	Stores  []iface.Store
 	Ops     []WOp
 	Dup     bool // also offer re-announcement of heads the receiver already holds
-	pubkeys []string
+	// Observer: an extra replica (index N) that never writes, replicates over pubsub/direct channel and
+	// receives announcements by the listed routes ("sync", "topic", "direct"); Antichains also offers
+	// announcements of arbitrary single entries and concurrent pairs.
+	Observer   bool
+	Routes     []string
+	Antichains bool
+	Reload     bool // offer restart + Load(-1) of every replica
+	Snapshot   bool // offer SaveSnapshot + restart + LoadFromSnapshot of every writer replica
+	Gated      bool // gate the observer's replication fetches: completion order becomes explorer choice
+	Addr       string
+	replicate  []bool
+	pubkeys    []string
 	// oracle state
 	pending []explore.Violation
 	Oracles []func(w *Writers, hist []string) []explore.Violation
@@ -92,10 +105,60 @@ func NewWriters(kind string, n int, ops []WOp) (*Writers, error) {
 		}
 		w.Stores = append(w.Stores, s)
 	}
+	w.Addr = s0.Address().String()
+	for range w.Stores {
+		w.replicate = append(w.replicate, false)
+	}
 	if err := sim.Quiesce(); err != nil {
 		return nil, err
 	}
 	return w, nil
+}
+
+// AddObserver adds the non-writing replica O (index N) with pubsub replication enabled.
+func (w *Writers) AddObserver() error {
+	p := w.Net.AddPeer("O")
+	inst, err := p.Start(nil)
+	if err != nil {
+		return err
+	}
+	s, err := inst.DB.Open(bg, w.Addr, &orbitdb.CreateDBOptions{Replicate: boolp(true)})
+	if err != nil {
+		return err
+	}
+	w.Inst = append(w.Inst, inst)
+	w.Stores = append(w.Stores, s)
+	w.replicate = append(w.replicate, true)
+	w.Observer = true
+	return sim.Quiesce()
+}
+
+// Restart closes replica i's instance and opens the database again on the same durable state,
+// loading it from the cache (fromSnapshot: via LoadFromSnapshot).
+func (w *Writers) Restart(i int, fromSnapshot bool) error {
+	_ = w.Inst[i].Close()
+	if err := sim.Quiesce(); err != nil {
+		return err
+	}
+	inst, err := w.Inst[i].Peer.Start(nil)
+	if err != nil {
+		return err
+	}
+	w.Inst[i] = inst
+	s, err := inst.DB.Open(bg, w.Addr, &orbitdb.CreateDBOptions{Replicate: boolp(w.replicate[i])})
+	if err != nil {
+		return err
+	}
+	w.Stores[i] = s
+	if fromSnapshot {
+		err = s.LoadFromSnapshot(bg)
+	} else {
+		err = s.Load(bg, -1)
+	}
+	if err != nil {
+		w.pending = append(w.pending, explore.Violation{Signature: "load-error", Detail: fmt.Sprintf("replica %d (snapshot=%v): %v", i, fromSnapshot, err)})
+	}
+	return sim.Quiesce()
 }
 
 func (w *Writers) Close() {
@@ -176,7 +239,7 @@ func (w *Writers) EntriesKey(es []ipfslog.Entry) string {
 }
 
 func (w *Writers) Key() string {
-	parts := make([]string, w.N)
+	parts := make([]string, len(w.Stores))
 	for i := range w.Stores {
 		parts[i] = w.SetKey(i)
 	}
@@ -229,7 +292,131 @@ func (w *Writers) Enabled() []string {
 			}
 		}
 	}
+	if w.Observer {
+		o := w.N
+		for j := 0; j < w.N; j++ {
+			if w.Stores[j].OpLog().Len() == 0 || (!w.hasNew(o, j) && !w.Dup) {
+				continue
+			}
+			for _, r := range w.Routes {
+				out = append(out, fmt.Sprintf("a%d:%s", j, r))
+			}
+		}
+		if w.Antichains {
+			out = append(out, w.antichainActions()...)
+		}
+	}
+	if w.Reload {
+		for i := range w.Stores {
+			if w.Stores[i].OpLog().Len() > 0 {
+				out = append(out, fmt.Sprintf("L%d", i))
+			}
+		}
+	}
+	if w.Snapshot {
+		for i := 0; i < w.N; i++ {
+			if w.Stores[i].OpLog().Len() > 0 {
+				out = append(out, fmt.Sprintf("S%d", i))
+			}
+		}
+	}
 	return out
+}
+
+// universe returns every entry held by any writer, keyed by abstract id.
+func (w *Writers) universe() map[string]ipfslog.Entry {
+	u := map[string]ipfslog.Entry{}
+	for i := 0; i < w.N; i++ {
+		for _, e := range w.Stores[i].OpLog().GetEntries().Slice() {
+			u[w.EID(e)] = e
+		}
+	}
+	return u
+}
+
+// antichainActions offers announcing to the observer any single entry it lacks and any pair of
+// concurrent entries (in both list orders).
+func (w *Writers) antichainActions() []string {
+	u := w.universe()
+	olog := w.Stores[w.N].OpLog()
+	var ids []string
+	for id, e := range u {
+		if _, ok := olog.Get(e.GetHash()); !ok {
+			ids = append(ids, id)
+		}
+	}
+	sort.Strings(ids)
+	anc := func(e ipfslog.Entry) map[string]bool { // all ancestors by hash, over the universe
+		byHash := map[string]ipfslog.Entry{}
+		for _, x := range u {
+			byHash[x.GetHash().String()] = x
+		}
+		seen := map[string]bool{}
+		stack := []ipfslog.Entry{e}
+		for len(stack) > 0 {
+			x := stack[0]
+			stack = stack[1:]
+			for _, c := range x.GetNext() {
+				if !seen[c.String()] {
+					seen[c.String()] = true
+					if y, ok := byHash[c.String()]; ok {
+						stack = append(stack, y)
+					}
+				}
+			}
+		}
+		return seen
+	}
+	var out []string
+	for _, a := range ids {
+		out = append(out, "x:"+a)
+	}
+	for i, a := range ids {
+		for _, b := range ids[i+1:] {
+			ea, eb := u[a], u[b]
+			if anc(ea)[eb.GetHash().String()] || anc(eb)[ea.GetHash().String()] {
+				continue
+			}
+			out = append(out, "x:"+a+"+"+b, "x:"+b+"+"+a)
+		}
+	}
+	return out
+}
+
+// announce delivers heads to the observer by the given route.
+func (w *Writers) announce(from int, heads []ipfslog.Entry, route string) error {
+	o := w.N
+	switch route {
+	case "sync":
+		hs, err := WireCopy(w.Addr, heads)
+		if err != nil {
+			return err
+		}
+		if err := w.Stores[o].Sync(bg, hs); err != nil {
+			w.pending = append(w.pending, explore.Violation{Signature: "sync-error", Detail: err.Error()})
+		}
+	case "topic", "direct":
+		hs, err := WireCopy(w.Addr, heads)
+		if err != nil {
+			return err
+		}
+		msg := &iface.MessageExchangeHeads{Address: w.Addr}
+		for _, h := range hs {
+			msg.Heads = append(msg.Heads, h.(*entry.Entry))
+		}
+		payload, err := json.Marshal(msg)
+		if err != nil {
+			return err
+		}
+		if route == "topic" {
+			w.Net.PubSub.InjectTopic(w.Inst[from].Peer.ID, w.Inst[o].Peer.ID, w.Addr, payload)
+		} else {
+			w.Net.PubSub.InjectDirect(w.Inst[from].Peer.ID, w.Inst[o].Peer.ID, payload)
+		}
+	default:
+		return fmt.Errorf("unknown route %q", route)
+	}
+	return nil
 }
 
 func (w *Writers) Do(a string) error {
@@ -270,6 +457,37 @@ func (w *Writers) Do(a string) error {
 		}
 		if err := w.Stores[i].Sync(bg, heads); err != nil {
 			w.pending = append(w.pending, explore.Violation{Signature: "sync-error", Detail: fmt.Sprintf("%s: %v", a, err)})
+		}
+	case a[0] == 'a':
+		j := int(a[1] - '0')
+		if err := w.announce(j, w.Stores[j].OpLog().Heads().Slice(), a[3:]); err != nil {
+			return err
+		}
+	case a[0] == 'x':
+		u := w.universe()
+		var heads []ipfslog.Entry
+		for _, id := range strings.Split(a[2:], "+") {
+			e, ok := u[id]
+			if !ok {
+				return fmt.Errorf("unknown entry %q in %q", id, a)
+			}
+			heads = append(heads, e)
+		}
+		if err := w.announce(0, heads, "sync"); err != nil {
+			return err
+		}
+	case a[0] == 'L':
+		if err := w.Restart(int(a[1]-'0'), false); err != nil {
+			return err
+		}
+	case a[0] == 'S':
+		i := int(a[1] - '0')
+		if _, err := basestore.SaveSnapshot(bg, w.Stores[i]); err != nil {
+			w.Scratch["snapshot-save-error"] = err.Error()
+			break // saving may fail; then nothing is reloaded
+		}
+		if err := w.Restart(i, true); err != nil {
+			return err
 		}
 	default:
 		return fmt.Errorf("unknown action %q", a)
